@@ -27,8 +27,8 @@ CHECKS = {
             "the harness' own handlers never panic; a crash of the child process is attributed to the case on disk",
             "DESIGN.md 4/C05"),
     "C06": ("Go race detector + porcupine linearizability check of recorded client histories + reader-side assertions, in -race child processes with injected yields inside mux's critical sections",
-            "held on the schedules observed: zero race reports/fatal errors, every per-pattern history linearizable against the sequential table model, untouched routes always served by their own handler; evidence counts overlapping read/write pairs",
-            "schedules are sampled, not enumerated; Use is outside the concurrent mix; porcupine timeout => inconclusive",
+            "held on the schedules observed: zero race reports/fatal errors, every per-pattern history linearizable against the sequential table model, untouched routes always served by their own handler, every workload made progress (no operation of any goroutine for 120 s = readers and writers block each other = violation); evidence counts overlapping read/write pairs",
+            "schedules are sampled, not enumerated; Use is outside the concurrent mix; porcupine timeout => inconclusive; the 120 s progress bound and the 30 s bound of lock-free-after-root-requests are the only wall-clock values that decide",
             "DESIGN.md 4/C06"),
     "C07": ("Go race detector over parallel independent instances and a quiescent router + transcript comparison of fresh routers across unrelated prior activity (one child per script)",
             "held on the schedules/orders observed: zero race reports, per-request parameter isolation with pooled contexts, identical fresh-router transcripts whatever ran before",
